@@ -22,10 +22,13 @@ LINE_TABLES = ("bMarks", "eMarks", "tShift", "sCount", "bsCount")
 def rule_sent(c: Ctx) -> RuleResult:
     r = RuleResult("SENT", "the five line tables are appended in lockstep, once per scanned line and once more as the sentinel "
                            "after the scan; lineMax excludes the sentinel")
-    f = c.p.func("rules_block/state_block.py:StateBlock.__init__")
-    r.functions = 1
-    loops = [n for n in own_nodes(f.node) if isinstance(n, (ast.For, ast.While))]
-    groups_in_loop = groups_after = 0
+    init = c.p.func("rules_block/state_block.py:StateBlock.__init__")
+    # the constructor and the helpers only it calls (an extracted line scanner)
+    cands = [init]
+    for cs in c.cg.sites.get(init, []):
+        for g in cs.callees:
+            if g.module is init.module and g not in cands and g.cls is None:
+                cands.append(g)
 
     def appended(stmt: ast.stmt) -> str | None:
         if isinstance(stmt, ast.Expr) and isinstance(stmt.value, ast.Call) and isinstance(stmt.value.func, ast.Attribute) \
@@ -33,36 +36,43 @@ def rule_sent(c: Ctx) -> RuleResult:
             b = stmt.value.func.value
             if isinstance(b, ast.Attribute) and isinstance(b.value, ast.Name) and b.value.id == "self" and b.attr in LINE_TABLES:
                 return b.attr
+            if isinstance(b, ast.Name) and b.id in LINE_TABLES:
+                return b.id
         return None
 
-    for blk in _blocks(f.node):
-        tabs = [t for t in (appended(s) for s in blk) if t]
-        if not tabs:
-            continue
-        first = next(s for s in blk if appended(s))
-        in_loop = any(any(x is first for x in ast.walk(l)) for l in loops)
-        key = f"append-group|{'loop' if in_loop else 'after'}"
-        if sorted(tabs) == sorted(LINE_TABLES):
-            r.add(key, c.where(f, first), f.short, "; ".join(U(s) for s in blk if appended(s))[:150], "discharged",
-                  "all five line tables are appended together (" + ("per scanned line" if in_loop else "sentinel entry after the scan") + ")")
-            if in_loop:
-                groups_in_loop += 1
+    groups_in_loop = groups_after = 0
+    for f in cands:
+        r.functions += 1
+        loops = [n for n in own_nodes(f.node) if isinstance(n, (ast.For, ast.While))]
+        for blk in _blocks(f.node):
+            tabs = [t for t in (appended(s) for s in blk) if t]
+            if not tabs:
+                continue
+            first = next(s for s in blk if appended(s))
+            in_loop = any(any(x is first for x in ast.walk(l)) for l in loops)
+            key = f"append-group|{'loop' if in_loop else 'after'}"
+            if sorted(tabs) == sorted(LINE_TABLES):
+                r.add(key, c.where(f, first), f.short, "; ".join(U(s) for s in blk if appended(s))[:150], "discharged",
+                      "all five line tables are appended together (" + ("per scanned line" if in_loop else "sentinel entry after the scan") + ")")
+                if in_loop:
+                    groups_in_loop += 1
+                else:
+                    groups_after += 1
             else:
-                groups_after += 1
-        else:
-            miss = sorted(set(LINE_TABLES) - set(tabs))
-            dup = sorted({t for t in tabs if tabs.count(t) > 1})
-            r.add(key, c.where(f, first), f.short, "; ".join(U(s) for s in blk if appended(s))[:150], "violation",
-                  f"line tables out of lockstep in this block: missing {miss} duplicated {dup} - rules index all five by the same "
-                  f"line number (IndexError, or a wrong indent for every later line)")
+                miss = sorted(set(LINE_TABLES) - set(tabs))
+                dup = sorted({t for t in tabs if tabs.count(t) > 1})
+                r.add(key, c.where(f, first), f.short, "; ".join(U(s) for s in blk if appended(s))[:150], "violation",
+                      f"line tables out of lockstep in this block: missing {miss} duplicated {dup} - rules index all five by the same "
+                      f"line number (IndexError, or a wrong indent for every later line)")
+    f = init
     if groups_in_loop < 1:
         r.add("append-group|loop|missing", c.where(f, f.node), f.short, "scan loop", "violation",
-              "no per-line append group of the five line tables inside the scan loop")
+              "no per-line append group of the five line tables inside a scan loop")
     if groups_after < 1:
         r.add("append-group|sentinel|missing", c.where(f, f.node), f.short, "after the scan loop", "violation",
               "the sentinel entry (one extra element in each of the five line tables after the scan) is missing: rules read one "
               "line past the end (state.bMarks[nextLine] with nextLine == lineMax) and would raise IndexError")
-    # lineMax = len(self.<table>) - 1
+    # lineMax = len(<table>) - 1
     found = False
     for n in own_nodes(f.node):
         if isinstance(n, ast.Assign) and len(n.targets) == 1 and U(n.targets[0]) == "self.lineMax" and not isinstance(n.value, ast.Constant):
@@ -70,7 +80,7 @@ def rule_sent(c: Ctx) -> RuleResult:
             v = n.value
             ok = (isinstance(v, ast.BinOp) and isinstance(v.op, ast.Sub) and isinstance(v.right, ast.Constant) and v.right.value == 1
                   and isinstance(v.left, ast.Call) and U(v.left.func) == "len" and len(v.left.args) == 1
-                  and isinstance(v.left.args[0], ast.Attribute) and v.left.args[0].attr in LINE_TABLES)
+                  and U(v.left.args[0]).split(".")[-1] in LINE_TABLES)
             r.add("lineMax", c.where(f, n), f.short, U(n), "discharged" if ok else "violation",
                   "lineMax is the table length minus the sentinel" if ok else
                   "lineMax is not `len(<line table>) - 1`: with the sentinel counted as a line, or a real line dropped, the block "
@@ -96,37 +106,33 @@ def _reads_option(c: Ctx, f: Func, e: ast.AST, key: str, at: ast.AST, rd: Reachi
 
 
 def rule_nest(c: Ctx) -> RuleResult:
-    from .bnd_rules import _enclosing_for, _first_entry_facts, bnd_facts
-    r = RuleResult("NEST", "every rule-dispatch site that can recurse is dominated by `state.level < <option maxNesting>`; nested "
-                           "dispatch from a rule happens only below an opened token (level + 1)")
+    from .switch_rules import _edge_dominated
+    r = RuleResult("NEST", "every rule-dispatch site that can recurse is reachable only through the passing edge of a comparison of the "
+                           "nesting level with a value read from option maxNesting")
     n_sites = 0
     for g in sorted(c.cg.api_phase(), key=lambda x: x.qual):
         for cs in c.cg.sites.get(g, []):
-            if not (cs.kind.startswith("dispatch:block::") or cs.kind.startswith("dispatch:inline::")) and \
-                    cs.kind not in ("dispatch:block:", "dispatch:inline:"):
+            if cs.kind not in ("dispatch:block:", "dispatch:inline:"):
                 continue
             call = cs.node
             n_sites += 1
             r.functions += 1
             st = U(call.args[0]) if call.args else "state"
-            cfg, res = bnd_facts(c, g)
+            cfg = c.cfg(g)
             rd = Reaching(cfg)
-            loop = _enclosing_for(g, call)
-            z = None
-            if loop is not None:
-                for h in [n for n in cfg.nodes if n.kind == "for" and n.ast is loop]:
-                    zz = _first_entry_facts(cfg, res, h)
-                    z = zz if z is None else (z.join(zz) if zz is not None else z)
-            ok, why = False, "the dispatch loop is not dominated by a comparison of the nesting level with the maxNesting option"
-            if z is not None:
-                for (b, k) in z.upper_bounds(f"{st}.level"):
-                    if k <= -1 and _reads_option(c, g, ast.parse(b, mode="eval").body if not b.isidentifier() else ast.Name(id=b, ctx=ast.Load()),
-                                                 "maxNesting", loop.iter, rd):
-                        ok, why = True, f"dominated by {st}.level < {b} and {b} is read from option maxNesting"
-                        break
+            caps: list[tuple[Node, str]] = []
+            for n in cfg.nodes:
+                if n.kind == "test" and isinstance(n.ast, ast.Compare) and len(n.ast.ops) == 1 and f"{st}.level" in U(n.ast.left):
+                    if _reads_option(c, g, n.ast.comparators[0], "maxNesting", n.ast, rd):
+                        lab = {ast.Lt: "T", ast.LtE: "T", ast.Gt: "F", ast.GtE: "F"}.get(type(n.ast.ops[0]))
+                        if lab:
+                            caps.append((n, lab))
+            ok = bool(caps) and all(any(_edge_dominated(cfg, t, lab, dn) for (t, lab) in caps) for dn in cfg.owner(call))
             key = f"{g.short}|{cs.kind}"
             r.add(key, c.where(g, call), g.short, U(call), "discharged" if ok else "violation",
-                  why if ok else why + ": deeply nested input recurses until RecursionError")
+                  f"reachable only through `{U(caps[0][0].ast)}` passing (the right-hand side is read from option maxNesting)" if ok else
+                  "the dispatch is not guarded by a comparison of the nesting level with the maxNesting option: deeply nested input "
+                  "recurses until RecursionError")
     if n_sites < 3:
         raise AnchorError(f"only {n_sites} main-chain dispatch sites found (expected ParserBlock.tokenize, ParserInline.tokenize, skipToken)")
     r.floor = 3
